@@ -325,7 +325,16 @@ def part_helpers(ctx, rng):
                     got2 = sorted(id(e) for e in a.four_neighbors((y, x)))
                     idx = sorted(a.four_neighbor_indices(y, x))
                     widx = sorted((yy, xx) for yy, xx in ((y - 1, x), (y + 1, x), (y, x - 1), (y, x + 1)) if 0 <= yy < h and 0 <= xx < w)
-                    if got1 != want or got2 != want or idx != widx:
+                    # history: a caller that extends the returned lists must not influence later calls (any array of that shape)
+                    lst = a.four_neighbor_indices(y, x)
+                    lst.append((y, x))
+                    a.four_neighbors(y, x).data.append(None)
+                    s2 = Solver()
+                    a2 = mk_array(s2, kind, (h, w))
+                    idx2 = sorted(a2.four_neighbor_indices(y, x))
+                    idx3 = sorted(a.four_neighbor_indices((y, x)))
+                    got3 = sorted(id(e) for e in a.four_neighbors(y, x))
+                    if got1 != want or got2 != want or idx != widx or idx2 != widx or idx3 != widx or got3 != want:
                         rep.counterexample("four_neighbors", "four_neighbors(%d,%d) on %dx%d wrong" % (y, x, h, w),
                                            {"part": "four_neighbors", "h": h, "w": w, "y": y, "x": x}, True)
 
